@@ -21,6 +21,10 @@ GLOBAL_OVERRIDES: dict[str, dict[str, object]] = {}  # relpath -> {global name: 
 INLINE_DENY: set[str] = set()
 
 
+class ContractError(Exception):
+    """A contract or spec function is itself broken (checker error, never a violation)."""
+
+
 class Contract:
     def __init__(self, qual, **kw):
         self.qual = qual  # "stepup/core/hash.py::HashWords.update"
@@ -327,7 +331,8 @@ def get_transformed(key: str, loops=None, env=None):
     relpath, qual = key.split("::")
     loops = loops or {}
     while_specs = [k for k in loops]
-    factory, info = extract.transformed_function(relpath, qual, while_specs)
+    extra = {k: v.havoc for k, v in loops.items() if getattr(v, "havoc", None)}
+    factory, info = extract.transformed_function(relpath, qual, while_specs, extra)
     if info["unsupported"]:
         raise Unsupported(f"{key}: " + "; ".join(info["unsupported"]))
     fn = factory(exec_globals(relpath, loops, env))
@@ -533,6 +538,9 @@ def verify_function(con: Contract) -> FnReport:
             except RecursionError:
                 raise Unsupported("recursion limit") from None
             except BaseException as e:  # noqa: BLE001
+                fr = traceback.extract_tb(e.__traceback__)[-1]
+                if ("/contracts/" in fr.filename or "/specs/" in fr.filename) and "contract of" not in str(e):
+                    raise ContractError(f"{con.qual}: contract code raised {e!r} at {fr.filename}:{fr.lineno}") from e
                 outcome = ("raise", e)
             avail = dict(args)
             avail["old"] = old
